@@ -120,6 +120,12 @@ fn main() {
                 sample_docs(&mut report, kind, &inp.sequences);
                 let mut docs = inp.all();
                 docs.extend(gen::header_docs(kind));
+                let contexts: Vec<&[u8]> = if kind == "aag" {
+                    vec![b"", b"aag ", b"aag 1 1 0 1 0\n", b"aag 1 1 0 1 0\n2\n2\n", b"aag 1 1 0 1 0\n2\n2\ni0 ", b"aag 1 1 0 1 0\n2\n2\nc\n"]
+                } else {
+                    vec![b"", b"aig ", b"aig 1 1 0 1 0\n", b"aig 1 1 0 1 0\n2\n", b"aig 1 1 0 1 0\n2\ni0 ", b"aig 1 1 0 1 0\n2\nc\n"]
+                };
+                docs.extend(generic::long_token_docs(&contexts));
                 groups.push((kind.to_string(), subs, generic::dedup_docs(docs)));
             }
             generic::c05_isolated(&groups, tier.pick(40.0, 1500.0), &mut report);
